@@ -291,8 +291,13 @@ int main(int argc, char** argv) {
         int conc = fixed_conc ? fixed_conc : (int)top.pick(std::vector<int>{ 1, 2, 2, 3, 4, 4, 8, 16 });
         int reserved = conc > 1 ? (int)top.below(2) : (top.chance(1, 2) ? 1 : 0);
         int bconc = 1 + (int)top.below(3);
-        tbb::task_arena A(conc, reserved), B(bconc, (unsigned)top.below(2)), C(3, 0);
-        A.initialize(); B.initialize(); C.initialize();
+        // arenas live for the whole process and are re-used (arena churn belongs to C16, and a known teardown accounting
+        // defect recorded there must not end this check's processes): one arena per shape, created on first use
+        static std::map<std::pair<int, int>, std::unique_ptr<tbb::task_arena>> arena_pool;
+        auto get_arena = [&](int c, int r) -> tbb::task_arena& { auto& p = arena_pool[{ c, r }]; if (!p) { p.reset(new tbb::task_arena(c % 100, r)); p->initialize(); } return *p; };
+        tbb::task_arena& A = get_arena(conc, reserved);
+        tbb::task_arena& B = get_arena(bconc + 100, (int)top.below(2));     // +100: kept apart from the main arenas of the same size
+        tbb::task_arena& C = get_arena(3 + 200, 0);
         std::unique_ptr<Keeper> keeper;
         bool can_keep = conc > reserved || conc == 1;   // an arena whose slots are all reserved has no worker to run enqueued work
         if (hot && can_keep && !(conc == 1 && reserved == 1)) keeper.reset(new Keeper(A, 4, 40));
@@ -350,6 +355,5 @@ int main(int argc, char** argv) {
     }
     watchdog_stop();
     R.stat("hook_delays", (long long)perturb().delays.load());
-    R.write();
-    return 0;
+    R.finish_and_exit(0);     // arenas and workers are still alive: leave without static destructors
 }
